@@ -143,6 +143,10 @@ pub struct Obs {
     pub src_supply: Vec<u64>, // NumTokens per collection (monitor only)
     pub ledger_extra: u64,    // DepositedTokens entries under a collection string the world does not know
     pub raw_ledger_entries: u64,
+    // supply side (monitors of the C01 clauses on this minter; not part of the Coq case)
+    pub positions: Vec<(u32, u32)>, // raw MINTABLE_TOKEN_POSITIONS
+    pub tgt_all: Vec<String>,       // AllTokens of the target collection
+    pub tgt_supply: u64,            // NumTokens of the target collection
 }
 
 pub fn account(i: usize, w: &World) -> String {
@@ -409,6 +413,16 @@ pub fn minted_pick(w: &World, res: &AppResponse) -> u64 {
     0
 }
 
+/// `tokens_burned` of the burn-remaining event, if the response carries one
+pub fn burned_attr(res: &AppResponse) -> Option<u64> {
+    for e in &res.events {
+        if e.ty == "wasm-burn-remaining" {
+            return e.attributes.iter().find(|a| a.key == "tokens_burned").and_then(|a| a.value.parse().ok());
+        }
+    }
+    None
+}
+
 fn owner_id(w: &World, owner: &str) -> u64 {
     if owner == w.minter.as_str() {
         return MINTER_ID;
@@ -474,7 +488,36 @@ pub fn observe(w: &World, case: &Case) -> Obs {
             .range(&*st, None, None, cosmwasm_std::Order::Ascending)
             .count() as u64
     };
+    let positions = {
+        let st = w.app.contract_storage(&w.minter);
+        token_merge_minter::state::MINTABLE_TOKEN_POSITIONS
+            .range(&*st, None, None, cosmwasm_std::Order::Ascending)
+            .filter_map(|x| x.ok())
+            .collect::<Vec<(u32, u32)>>()
+    };
+    let mut tgt_all: Vec<String> = vec![];
+    loop {
+        let page: cw721::TokensResponse = q
+            .query_wasm_smart(
+                &w.target,
+                &sg721_base::msg::QueryMsg::AllTokens { start_after: tgt_all.last().cloned(), limit: Some(100) },
+            )
+            .expect("AllTokens");
+        let n = page.tokens.len();
+        tgt_all.extend(page.tokens);
+        if n < 100 {
+            break;
+        }
+    }
+    let tgt_supply = {
+        let n: cw721::NumTokensResponse =
+            q.query_wasm_smart(&w.target, &sg721_base::msg::QueryMsg::NumTokens {}).expect("NumTokens");
+        n.count
+    };
     Obs {
+        positions,
+        tgt_all,
+        tgt_supply,
         ledger,
         counts,
         mintable: mt.count as u64,
